@@ -45,6 +45,19 @@ static size_t frameEnds[64]; static size_t frameSrcEnds[64]; static int nFrames;
 static int endPending = 0; static size_t pendingSlice = 0;   /* e_end issued, not yet completed: the offered slice is frozen */
 static long long c_ret; static size_t c_inDelta, c_outDelta;
 
+/* ---- verification hooks of the library (-DZSTD_VERIF_TRACE): events of the multithreaded compressor, logged in the order
+ * in which they happen (a spin lock orders concurrent callers; under vsched only one thread runs at a time) */
+#ifdef ZSTD_VERIF_TRACE
+#include "../lib/common/zstd_verif.h"
+static volatile int g_hlock = 0;
+static void hook_cb(const char* ev, const void* ctx, long long a, long long b, long long c, long long d, long long e, long long f) {
+    (void)ctx;
+    while (__atomic_exchange_n(&g_hlock, 1, __ATOMIC_ACQUIRE)) { }
+    fprintf(T, "{\"e\":\"%s\",\"a\":%lld,\"b\":%lld,\"c\":%lld,\"d\":%lld,\"f\":%lld,\"g\":%lld}\n", ev, a, b, c, d, e, f);
+    __atomic_store_n(&g_hlock, 0, __ATOMIC_RELEASE);
+}
+#endif
+
 static void gen(const char* kind, size_t n, unsigned seed, unsigned char* d) {
     size_t i; unsigned x = seed * 2654435761u + 12345u;
 #define RND (x = x * 1103515245u + 12345u, (x >> 16) & 0x7fff)
@@ -204,6 +217,9 @@ int main(int argc, char** argv) {
     if (argc < 3) return 2;
     S = fopen(argv[1], "r"); T = fopen(argv[2], "w"); if (!S || !T) return 2;
     if (getenv("STREAMDRV_LB")) setvbuf(T, NULL, _IOLBF, 0);   /* line-buffered: the trace survives an abort */
+#ifdef ZSTD_VERIF_TRACE
+    if (getenv("STREAMDRV_HOOKS")) ZSTD_verif_hook = hook_cb;
+#endif
     src = (unsigned char*)malloc(MAXSRC); cctx = ZSTD_createCCtx(); dctx = ZSTD_createDCtx(); zbc = ZBUFF_createCCtx();
     while (fgets(line, sizeof(line), S)) {
         char cmd[32] = "", a[64] = "", b[64] = "", c[64] = "", d[64] = ""; int n = sscanf(line, "%31s %63s %63s %63s %63s", cmd, a, b, c, d);
@@ -229,6 +245,12 @@ int main(int argc, char** argv) {
                 if (dir == 1 && srcPos == srcSize && c_ret == 0) break;
                 if (dir == 2 && !endPending) break;
                 if (++guard > 4000000) break; } }
+        else if (!strcmp(cmd, "CRESET")) {   /* abort the frame in progress (ZSTD_reset_session_only): what it emitted so far is discarded by the caller */
+            size_t r = ZSTD_CCtx_reset(cctx, ZSTD_reset_session_only); size_t keep = nFrames ? frameEnds[nFrames - 1] : 0;
+            compSize = keep; endPending = 0; pendingSlice = 0;
+            /* the source of the aborted frame is dropped as well: following frames compress what comes next */
+            if (srcPos > frameStart) { memmove(src + frameStart, src + srcPos, srcSize - srcPos); srcSize -= (srcPos - frameStart); srcPos = frameStart; }
+            fprintf(T, "{\"e\":\"creset\",\"ok\":%s,\"emitted\":%zu,\"srcPos\":%zu}\n", ZSTD_isError(r) ? "false" : "true", compSize, srcPos); }
         else if (!strcmp(cmd, "SKIP")) { unsigned sz = (unsigned)atoi(a); unsigned char h[8] = {0x53, 0x2A, 0x4D, 0x18, 0, 0, 0, 0}; unsigned char* p = (unsigned char*)calloc(sz ? sz : 1, 1);
             h[4] = sz & 255; h[5] = (sz >> 8) & 255; h[6] = (sz >> 16) & 255; h[7] = (sz >> 24) & 255; emit(h, 8); emit(p, sz); free(p);
             fprintf(T, "{\"e\":\"skip\",\"n\":%u,\"emitted\":%zu}\n", sz, compSize); }
